@@ -118,6 +118,91 @@ Proof.
   rewrite Rmult_assoc, Rinv_l, Rmult_1_r in A by lra. exact A.
 Qed.
 
+(** *** saturation temperatures: the inverse functions of the two saturation lines differ by < 0.18 K *)
+Definition b23p97 (t : R) : R := nth (out_pos b23p97_traced 0) (evalR fn0 (fun i => nth i [t] 0) (coefQ b23p97_coefs_Q) b23p97_nodes) 0.
+
+Lemma sat67_pos t : 1 / 100 <= t <= 37416 / 100 -> 0 < sat67 t.
+Proof. intros H. expose_sat67. numerals. interval. Qed.
+
+(** d ln(sat67) / dt >= 0.0115 per kelvin on the whole line (its minimum, 0.01185, is at the critical end) *)
+Lemma sat67_logderiv t : 1 / 100 <= t <= 37416 / 100 ->
+  exists d, is_derive sat67 t d /\ 115 / 10000 * sat67 t <= d.
+Proof.
+  intros H. eexists. split.
+  - expose_sat67. numerals.
+    auto_derive; [|reflexivity].
+    repeat split; interval.
+  - apply Rminus_le_0. expose_sat67. numerals. interval with (i_bisect t, i_depth 24).
+Qed.
+
+Opaque sat67.
+Lemma ln_sat67_rate a b : 1 / 100 <= a -> a <= b -> b <= 37416 / 100 ->
+  115 / 10000 * (b - a) <= ln (sat67 b) - ln (sat67 a).
+Proof.
+  intros Ha Hab Hb. destruct (Req_dec a b) as [->|Hne]; [lra|].
+  set (L := fun t => ln (sat67 t)). set (dL := fun t => Derive sat67 t / sat67 t).
+  assert (HL : forall x, a <= x <= b -> is_derive L x (dL x) /\ 115 / 10000 <= dL x).
+  { intros x Hx. destruct (sat67_logderiv x ltac:(lra)) as [d [D M]].
+    pose proof (sat67_pos x ltac:(lra)) as P. unfold dL. rewrite (is_derive_unique _ _ _ D). split.
+    - unfold L. evar_last; [apply (is_derive_comp ln sat67 x (/ sat67 x) d); [apply is_derive_ln; exact P|exact D]|].
+      change (d * / sat67 x = d / sat67 x). reflexivity.
+    - apply (Rmult_le_reg_r (sat67 x)); [exact P|]. assert (Hs : sat67 x <> 0) by lra.
+      replace (d / sat67 x * sat67 x) with d; [exact M|]. unfold Rdiv. rewrite Rmult_assoc, Rinv_l, Rmult_1_r; [reflexivity|exact Hs]. }
+  destruct (MVT_gen L a b dL) as [c [Hc E]].
+  - intros x Hx. rewrite Rmin_left, Rmax_right in Hx by lra. apply HL. lra.
+  - intros x Hx. rewrite Rmin_left, Rmax_right in Hx by lra.
+    apply continuity_pt_filterlim. apply (ex_derive_continuous L x). exists (dL x). apply HL. lra.
+  - rewrite Rmin_left, Rmax_right in Hc by lra. destruct (HL c Hc) as [_ M].
+    fold (L b) (L a). rewrite E. apply Rmult_le_compat_r; lra.
+Qed.
+
+Lemma ln_near_one r : 998 / 1000 <= r <= 1002 / 1000 -> - (201 / 100000) <= ln r <= 201 / 100000.
+Proof. intros H. split; interval. Qed.
+
+Lemma tsat_agree t67 t97 p :
+  Q2R d001 <= t67 <= Q2R Tc1_C_Q -> Q2R d001 <= t97 <= Q2R i97_tcritical_Q ->
+  sat67 t67 = p -> sat97 t97 = p -> Rabs (t67 - t97) <= 18 / 100.
+Proof.
+  unfold d001, Tc1_C_Q, i97_tcritical_Q. intros H67 H97 E67 E97.
+  assert (N67 : 1 / 100 <= t67 <= 37416 / 100) by (q2r; lra).
+  assert (N97 : 1 / 100 <= t97 <= 373947 / 1000) by (q2r; lra).
+  pose proof (sat97_pos t97 N97) as Pp. rewrite E97 in Pp.
+  pose proof (sat_agree_num t97 N97) as A. rewrite E97 in A.
+  pose proof (sat67_pos t97 ltac:(lra)) as Px.
+  set (r := sat67 t97 / p) in *.
+  assert (Hr : 998 / 1000 <= r <= 1002 / 1000).
+  { replace ((sat67 t97 - p) / p) with (r - 1) in A by (unfold r; field; lra).
+    apply Rabs_le_between in A. lra. }
+  assert (Hln : ln (sat67 t97) - ln p = ln r) by (unfold r; rewrite ln_div by assumption; reflexivity).
+  destruct (ln_near_one r Hr) as [L1 L2].
+  destruct (Rle_lt_dec t67 t97) as [C|C].
+  - pose proof (ln_sat67_rate t67 t97 ltac:(lra) C ltac:(lra)) as R. rewrite E67 in R.
+    rewrite Rabs_left1 by lra. lra.
+  - pose proof (ln_sat67_rate t97 t67 ltac:(lra) ltac:(lra) ltac:(lra)) as R. rewrite E67 in R.
+    rewrite Rabs_right by lra. lra.
+Qed.
+
+Transparent sat67.
+
+(** *** the two B23 curves differ by < 0.05 % between 350 and 590 degC *)
+Lemma b23_agree_num t : 350 <= t <= 590 ->
+  0 < b23p97 t /\ Rabs (b23p67 t - b23p97 t) <= 5 / 10000 * b23p97 t.
+Proof.
+  intros H.
+  assert (P : 0 < b23p97 t).
+  { unfold b23p97. lazy [out_pos b23p97_traced t_paths p_out nth].
+    lazy [evalR eval_nodes eval_node get nth map b23p97_nodes coefQ b23p97_coefs_Q i97_nr23_Q app]. numerals.
+    interval with (i_bisect t, i_depth 12). }
+  split; [exact P|].
+  assert (A : Rabs ((b23p67 t - b23p97 t) / b23p97 t) <= 5 / 10000).
+  { unfold b23p67, b23p97. lazy [out_pos b23p67_traced b23p97_traced t_paths p_out nth].
+    lazy [evalR eval_nodes eval_node get nth map b23p67_nodes b23p97_nodes coefQ b23p97_coefs_Q i97_nr23_Q app]. numerals.
+    interval with (i_bisect t, i_taylor t, i_degree 3, i_depth 12). }
+  unfold Rdiv in A. rewrite Rabs_mult, (Rabs_right (/ b23p97 t)) in A by (apply Rle_ge, Rlt_le, Rinv_0_lt_compat; exact P).
+  apply (Rmult_le_compat_r (b23p97 t)) in A; [|lra].
+  rewrite Rmult_assoc, Rinv_l, Rmult_1_r in A by lra. exact A.
+Qed.
+
 (** *** cowat's radicand on the range that range checking admits *)
 Definition fn67 : fnR := fun fid _ args =>
   if Nat.eqb fid f_sat then sat67 (hd 0 args) else if Nat.eqb fid f_b23p then b23p67 (hd 0 args) else 0.
